@@ -224,6 +224,39 @@ Definition c06_step_ok (k : pcase) (eo : cev * cobs) : bool :=
       else true).
 Definition c06_ok (k : pcase) : bool := negb (panicked k) && forallb (c06_step_ok k) (k_evs k).
 
+(* a successful lookup is taken in: when the cache has room for every fingerprint involved (no
+   truncation), every allowed, unexpired path of the answer (the last one per fingerprint) is
+   cached afterwards -- whether it is new or refreshes a cached entry --, and if one of them is
+   valid the slot is not empty *)
+Fixpoint last_per_fp (u : list path) (ids : list N) : list N :=
+  match ids with
+  | [] => []
+  | x :: r => if existsb (fun j => p_fp (lookup u j) =? p_fp (lookup u x)) r then last_per_fp u r
+              else x :: last_per_fp u r
+  end.
+Fixpoint nodupN (l : list N) : list N :=
+  match l with [] => [] | x :: r => if memN x r then nodupN r else x :: nodupN r end.
+Definition refresh_ok (k : pcase) (pre : list N) (now : N) (ids : list N) (ob : cobs) : bool :=
+  let c := k_cfg k in let u := k_univ k in
+  let al := last_per_fp u (filter (fun id => tbl_allowed (k_pol k) (lookup u id)) ids) in
+  let nfp := length (nodupN (map (fun id => p_fp (lookup u id)) (pre ++ al))) in
+  if (N.of_nat nfp <=? c_max_cached c) then
+    let live := filter (fun id => handed_live_ok (lookup u id) now && match p_exp (lookup u id) with Some _ => true | None => false end) al in
+    forallb (fun id => memN id (ob_cached ob)) live
+    && (negb (existsb (fun id => spec_valid c now (lookup u id)) live)
+        || match ob_active ob with Some _ => true | None => false end)
+  else true.
+Fixpoint c06_refresh_scan (k : pcase) (pre : list N) (evs : list (cev * cobs)) : bool :=
+  match evs with
+  | [] => true
+  | (e, ob) :: r =>
+    (match e with
+     | CTick now (Some ids) => if ob_out ob =? 1 then refresh_ok k pre now ids ob else true
+     | _ => true
+     end)
+    && c06_refresh_scan k (if (ob_out ob =? 2) || (ob_out ob =? 99) then pre else ob_cached ob) r
+  end.
+
 (* "while a valid path is known a sender is not left without one", on timely histories: a send
    that is not later than the next due tick gets no path although a cached path is valid *)
 Fixpoint c06_starved (k : pcase) (pre : option cobs) (evs : list (cev * cobs)) : bool :=
@@ -246,7 +279,8 @@ Definition verdict05 := verdict_with c05_ok.
 Definition verdict06 (k : pcase) : N :=
   let starved := if k_t0 k =? 0 then false else c06_starved k None (k_evs k) in
   model_mismatch k
-  + (if c06_ok k && negb (starved && negb (class_backoff (k_cfg k))) then 0 else 2)
+  + (if c06_ok k && (if k_t0 k =? 0 then true else c06_refresh_scan k [] (k_evs k))
+        && negb (starved && negb (class_backoff (k_cfg k))) then 0 else 2)
   + (if starved && class_backoff (k_cfg k) then 16 else 0).
 Definition verdicts05 (cs : list pcase) : list N := map verdict05 cs.
 Definition verdicts06 (cs : list pcase) : list N := map verdict06 cs.
@@ -255,6 +289,8 @@ Definition verdicts06 (cs : list pcase) : list N := map verdict06 cs.
 
 Fixpoint zip_totals (ids : list N) (ts : list Z) : list (N * Z) :=
   match ids, ts with i :: ir, t :: tr => (i, t) :: zip_totals ir tr | _, _ => [] end.
+
+Definition len_micro (p : path) : Z := Z.max 0 (100000 - 2000 * Z.of_N (p_hops p)).
 
 (* a batch of reports handled in one worker step: a path is affected when one of them is about
    an interface it uses *)
@@ -281,7 +317,25 @@ Definition failover_premises (k : pcase) (B : list issue) (now : N) (aid : N) (p
    path in use does so through an ingress interface only, by C07-hysteresis-keeps-failed when
    the score premises of [failover_immediate] do not hold on the observed scores; otherwise it
    is a violation. *)
-Definition check_batch (k : pcase) (B : list issue) (now : N) (pre post : cobs) : N :=
+(* every cached path that leaves through a reported interface is penalised by the report: its
+   observed reliability afterwards is at most (what it was before, if positive) minus the
+   literal penalty (1.0 link failure, 0.4 first-hop send failure) *)
+Definition lit_penalty_micro (i : issue) : Z :=
+  match i with IFirstHop _ _ => 400000 | IOther => 0 | _ => 1000000 end%Z.
+Definition penalised_ok (k : pcase) (B : list issue) (pre post : cobs) : bool :=
+  let u := k_univ k in
+  let pre_zt := zip_totals (ob_cached pre) (ob_totals pre) in
+  forallb (fun it =>
+    let p := lookup u (fst it) in
+    match find (fun i => steers i p) B with
+    | None => true
+    | Some i =>
+      let before := match find (fun jt => fst jt =? fst it) pre_zt with
+                    | Some jt => Z.max 0 (snd jt - len_micro p)%Z | None => 0%Z end in
+      (snd it - len_micro p <=? before - lit_penalty_micro i + 300)%Z
+    end) (zip_totals (ob_cached post) (ob_totals post)).
+
+Definition check_batch0 (k : pcase) (B : list issue) (now : N) (pre post : cobs) : N :=
   let c := k_cfg k in let u := k_univ k in
   match B, ob_active pre with
   | [], _ | _, None => 0
@@ -302,6 +356,12 @@ Definition check_batch (k : pcase) (B : list issue) (now : N) (pre post : cobs) 
       else 0
   end.
 
+(* reports that went through the issue manager additionally penalise every path they steer *)
+Definition check_batch (k : pcase) (B : list issue) (now : N) (pre post : cobs) : N :=
+  let b := check_batch0 k B now pre post in
+  if (match B with [] => true | _ => false end) || penalised_ok k B pre post then b
+  else if N.testbit b 1 then b else b + 2.
+
 Definition is_neg_penalty (q : Q) : bool := Qle_bool q (-(2 # 5)).
 
 (** "... and does become eligible again once it has decayed": oracles after a lookup.
@@ -311,7 +371,6 @@ Definition is_neg_penalty (q : Q) : bool := Qle_bool q (-(2 # 5)).
 Definition spec_penalty_micro (i : issue) (elapsed : N) : Z :=
   let p := match i with IFirstHop _ _ => (2 # 5) | IOther => 0 | _ => 1 end%Q in
   q_to_micro (decay_approx p elapsed 30000000000).
-Definition len_micro (p : path) : Z := Z.max 0 (100000 - 2000 * Z.of_N (p_hops p)).
 Fixpoint untrack (i : issue) (l : list (issue * N)) : list (issue * N) :=
   match l with [] => [] | (j, t) :: r => if issue_eqb i j then untrack i r else (j, t) :: untrack i r end.
 
@@ -352,7 +411,7 @@ Fixpoint c07_scan (k : pcase) (pre : option cobs) (pend : list issue) (tracked :
         if ob_out ob =? 5 then (check_batch k (firstn ndel pend) now pv ob, skipn ndel pend, tracked)
         else (0, pend, tracked)
       | CDirect now i pen, Some pv =>
-        (match pend with [] => if is_neg_penalty pen then check_batch k [i] now pv ob else 0 | _ => 0 end,
+        (match pend with [] => if is_neg_penalty pen then check_batch0 k [i] now pv ob else 0 | _ => 0 end,
          skipn ndel pend, tracked)
       | CTick now _, Some pv =>
         (if (ob_out ob =? 1)
